@@ -40,6 +40,10 @@ func buildRequests(target int, fields modbus.Fields) ([]modbus.BuilderRequest, e
 	for _, f := range fields {
 		key += f.Name + f.ServerAddress + string(rune(f.Address))
 	}
+	if variantOf(key+"zero")%5 == 0 {
+		// a builder that was not made by the constructor (`var b modbus.Builder`): fields carry their own target
+		b = new(modbus.Builder)
+	}
 	var callerSlice, callerCopy modbus.Fields
 	var staged func() // fields that are added after requests have been built once
 	switch variantOf(key) % 6 {
